@@ -8,6 +8,7 @@ import (
 	"verif/sim/core"
 	_ "verif/sim/engines/dkgsim"
 	_ "verif/sim/engines/dsssim"
+	_ "verif/sim/engines/modsim"
 	_ "verif/sim/engines/pvsssim"
 	_ "verif/sim/engines/vsssim"
 )
